@@ -131,5 +131,5 @@ pub fn body_text(b: &[Value]) -> String {
 /// The text of word `w` in context `ctx` (inside a here-document everything is
 /// scanned as inside double quotes).
 pub fn text(ctx: &str, w: &[Value]) -> String {
-    word_text(w, ctx == "here")
+    word_text(w, ctx == "here" || ctx == "hereq")
 }
